@@ -38,6 +38,9 @@ def solver_fallback(chk):
 
 def run_case(c):
     from rtc import oracle
+    if c.get("kind") in ("loops", "inputs_backend"):
+        from checks import c02 as _c02
+        return _c02.dispatch(c)
     if c["solver"] == "scipy":
         fails = oracle.check_adaptive_run(c["model"], c["T"], c["dt"], c["dts"], c["vec"], method=c.get("method", "RK45"))
     else:
@@ -72,6 +75,11 @@ def run_cases_for(chk):
     for solver in ("euler", "heun"):
         cases.append(dict(tag=f"W-T-not-multiple/{solver}", features=dict(solver=solver, T=0.9, dt=0.1, dts=0.2), model=m, solver=solver,
                           T=0.9, dt=0.1, dts=0.2, vec=False, cutoff=0.0))
+    # the backends' OWN fixed-step implementations (Torch, JAX): called directly and through run()
+    from checks import c02 as _c02
+    for c in _c02.families(chk.tier, chk.seed):
+        if c["kind"] == "loops" or (c["kind"] == "inputs_backend" and c["backend"] in ("torch", "jax") and c["solver"] in ("euler", "heun")):
+            cases.append(c)
     driver.run_family(
         chk, "run-vs-spec-iterates", cases, run_case, site="C03/run",
         rule="models F1/F2/F6/F7/F8 x euler/heun x (T, dt, dts) grid with dts/dt in {1,2,3,5} x cut-offs (off-grid and on-grid) x "
